@@ -64,8 +64,8 @@ PROPS = {
         "streams": [S("faults", 250, 6000, vm=(10, 100), vm_maxlen=8000)],
         "selftests": [{"name": "fault_safety_stmt", "args": ["f"], "n": (1500, 40000)}],
         "trusted": [GO, BBOLT],
-        "assumptions": ["faults are transient single failures of one VFS/MetaStore call with no partial effect (a failed write writes nothing; a failed fsync leaves the data written)", "deletions are exempt from fault injection (Go map order makes their order nondeterministic)", "I/O error + restart + later power loss is outside the model (adopted unsynced data is treated as synced)"],
-        "rule": "seeded workloads with a fault armed before 1/3 of the calls (the k-th action from then fails, k in 0..4), in-process audits, restart, reopen, usability probe; oracle = acknowledged entries readable and unchanged in-process and after reopen; distinct = distinct input lines",
+        "assumptions": ["a failed VFS/MetaStore call has no partial effect (a failed write writes nothing; a failed fsync leaves the data written; a failed deletion keeps the file), except a failed creation that may leave the empty file; no call fails although its effect reached the disk", "fault modes (every deletion fails / the next listing fails / a failed creation leaves the file) are in force while a counted fault is armed; a count inside a run of deletions is not used (Go map order)", "I/O error + restart + later power loss is outside the model (adopted unsynced data is treated as synced)"],
+        "rule": "seeded workloads with a fault armed before 1/2 of the calls (the k-th action from then fails, k in 0..5, alone or with fault modes, or only the mode 'every deletion fails'), targeted endings (fault in truncations, resets, sealing appends, stable writes; truncation whose deletions fail, Open whose clean-up fails; Open whose listing fails; rotation / truncation / reset whose Create leaves the file), in-process audits, restart, reopen, usability probe; oracles = acknowledged entries readable and unchanged in-process and after reopen, an Open without an injected fault succeeds; distinct = distinct input lines",
     },
     "C09": {
         "streams": [S("format", 250, 8000, vm=(16, 400)), S("golden", 1, 1, vm=(8, 18), vm_maxlen=6000)],
@@ -117,6 +117,8 @@ PROPS["C02"]["streams"] = [S("crash", 250, 6000, vm=(10, 100), vm_maxlen=8000), 
 PROPS["C03"]["streams"] = [S("crash", 250, 6000, vm=(10, 100), vm_maxlen=8000), S("segcrash", 250, 8000, vm=(6, 60), vm_maxlen=6000),
                            S("initcrash", 60, 1200, vm=(0, 0))]
 PROPS["C03"]["rule"] = PROPS["C01"]["rule"] + "; initcrash (implementation only, real fs + BoltDB): the states a crash during the very first Open can leave (empty / partial / garbage / complete wal-meta.db.tmp, final name plus stray tmp, repeated) must open, accept an append and present it after a clean reopen"
+# C13 also runs the faults stream: left-over files and failed deletions are where "meta DB + live segments" is at stake
+PROPS["C13"]["streams"] = [S("crash", 250, 6000, vm=(10, 100), vm_maxlen=8000), S("faults", 150, 3000, vm=(5, 50), vm_maxlen=8000)]
 PROPS["C08"] = dict(PROPS["C05"])
 PROPS["C01"]["streams"] = [S("crash", 300, 8000, vm=(10, 100), vm_maxlen=8000), S("segcrash", 250, 8000, vm=(6, 60), vm_maxlen=6000)]
 PROPS["C08"]["streams"] = [S("stable", 120, 3000, vm=(5, 60), vm_maxlen=5000), S("seqapi", 100, 3000, vm=(3, 60), vm_maxlen=5000), S("crash", 100, 3000, vm=(4, 50), vm_maxlen=8000),
